@@ -536,6 +536,67 @@ fn stamp_after_write() {
     core::mem::forget(fs);
 }
 
+fn truncate_contract(bpb: BiosParameterBlock) {
+    let cs = bpb.cluster_size();
+    let max = bpb.total_clusters() + 2;
+    let fat_begin = bpb.reserved_sectors as u64 * bpb.bytes_per_sector as u64;
+    let fat_end = fat_begin + bpb.fats as u64 * bpb.sectors_per_fat() as u64 * bpb.bytes_per_sector as u64;
+    let mut dev = NdDev::new();
+    setup(&bpb, &mut dev);
+    dev.eoc_after = 2; // the chain has at most one more cluster after the one the cursor is in
+    let fs = mk_fs_plain(dev, bpb.clone(), FsStatusFlags::decode(0), opts(false, SymTime::fixed()));
+    let st = any_file_state(max, true, false);
+    let mut f = mk_file(&fs, &st);
+    let r = f.truncate();
+    assert!(r.is_ok());
+    let e = f.entry.as_ref().unwrap();
+    let d0 = st.data.as_ref().unwrap();
+    // everything from the cursor onward is discarded: the size is the cursor, the cursor does not move
+    assert!(ed_data(e).size() == Some(st.offset));
+    assert!(f.offset == st.offset && f.current_cluster == st.current);
+    if st.offset == 0 {
+        // an empty file owns no cluster
+        assert!(f.first_cluster.is_none());
+        assert!(ed_data(e).first_cluster(fs.fat_type()).is_none());
+    } else {
+        assert!(f.first_cluster == st.first);
+        assert!(ed_data(e).first_cluster(fs.fat_type()) == d0.first_cluster(fs.fat_type()));
+    }
+    if d0.size() != Some(st.offset) {
+        assert!(ed_dirty(e));
+    }
+    assert!(d_created(ed_data(e)) == d_created(d0) && d_modified(ed_data(e)) == d_modified(d0));
+    {
+        let d = fs.disk.borrow();
+        assert!(!d.overflow);
+        // every device write of a truncation is a table update (either copy) or the status byte
+        let i: usize = kani::any();
+        kani::assume(i < d.nlog);
+        if let Op::Write(p, n) = d.log[i] {
+            assert!((p == 0x25 && n == 1) || (p >= fat_begin && p + n as u64 <= fat_end));
+        }
+        if st.first.is_some() {
+            // the table was touched, so the volume is marked dirty
+            assert!(d.nwrites == 0 || cur_flags(&fs).dirty);
+        } else {
+            assert!(d.nlog == 0);
+        }
+    }
+    kani::cover!(st.offset == 0 && st.first.is_some());
+    kani::cover!(st.offset > 0 && fs.disk.borrow().nwrites >= 4);
+    core::mem::forget(f);
+    core::mem::forget(fs);
+}
+
+// @obl props=C02,C03,C05,C11,C12 tier=thorough fns=File::truncate,FileSystem::truncate_cluster_chain,FileSystem::free_cluster_chain timeout=3000
+// @bound bounded: FAT16 fixture; the chain has at most one cluster after the cursor's (device content otherwise symbolic)
+// @desc File::truncate from ANY inv_file state of a regular file: Ok; size := cursor, cursor and current cluster unchanged; at cursor 0 the file gives up its first cluster (in memory and in the entry: an empty file owns no cluster), otherwise the first cluster stays; the entry is marked dirty when the size changed; timestamps untouched; every device write is a table update inside the FAT area (either copy) or the one-byte status write, and the volume is marked dirty when the table was touched
+#[kani::proof]
+#[kani::unwind(10)]
+fn truncate_contract_fat16() {
+    truncate_contract(bpb_fat16());
+}
+
 fn seek_arith(bpb: BiosParameterBlock) {
     let cs = bpb.cluster_size();
     let max = bpb.total_clusters() + 2;
